@@ -65,6 +65,8 @@ type Job struct {
 	Deadline time.Time
 	MapRot   bool
 	SchedAll bool
+	PreemptBound int
+	PreemptFuncs []string
 	Concrete *Counterexample // replay mode
 
 	mu           sync.Mutex
@@ -156,6 +158,8 @@ type Run struct {
 	onces   map[lockKey]*onceState
 	pools   map[lockKey][]Value
 	killed  bool
+	preemptions int
+	exclude     *G
 	stubs    map[string]Value
 	gPanic   interface{}
 	lastPanicStack string
